@@ -329,7 +329,20 @@ class HostGen:
         full0 = [a for a, d in sc.arrays.items() if d["full"] and not d.get("ro")]
         empty = bool(full0) and bool(self.p_empty_body) and r.random() < 2 * self.p_empty_body
         body = [] if empty else self.block(c, depth + 1, r.randrange(0, 3))
-        if not empty and self.allow_quantum and len(c.qubits) < self.budget and r.random() < 0.7:
+        form = r.random()
+        if not empty and c.regs and form < 0.25:
+            # the exit condition reads a register handle (new_register() / a register outcome) the body counts down
+            nm = r.choice(c.regs)
+            body += [{"op": "add", "target": {"kind": "reg", "name": nm}, "other": r.choice([-1, -1, -2, 1]), "mod": None}]
+            exit_ = {"val": {"kind": "reg", "name": nm}, "atmost": r.choice([0, 1, -1, 2])}
+        elif not empty and full0 and form < 0.35:
+            # ... or a loop index: this loop's own try counter, or the index of an enclosing loop (the body does something
+            # that is emitted: the SDK emits no loop at all for a body that emits nothing)
+            a = r.choice(full0)
+            body += [{"op": "add", "target": {"kind": "entry", "array": a, "idx": r.randrange(sc.arrays[a]["len"])},
+                      "other": r.choice([-1, 1, 2]), "mod": None}]
+            exit_ = {"val": {"kind": "var", "name": r.choice([var] + list(sc.vars))}, "atmost": r.choice([0, 1, -1, 2])}
+        elif not empty and self.allow_quantum and len(c.qubits) < self.budget and r.random() < 0.7:
             # the documented pattern: measure a fresh qubit, exit when the outcome is at most 0
             q = self.name("q")
             f = self.name("m")
